@@ -995,6 +995,33 @@ pub fn attr_qname(args: &[String]) -> i32 {
     let mut n = 0usize;
     for_each_case(inp, |c| {
         let text = cps_to_string(&c["text"]);
+        if c["kind"] == "elem" {
+            for expanded in [false, true] {
+                let mut ev = json!({"event": "elemq", "decl": c["decl"], "expanded": expanded, "parsed": false, "kids": []});
+                let t2 = text.clone();
+                let got = guarded(move || -> Option<Vec<J>> {
+                    let doc = parse(&t2, expanded)?;
+                    let r = root(&doc)?;
+                    let mut kids = vec![];
+                    for k in r.child_nodes().iter() {
+                        let m = k.attributes()?;
+                        let mut pairs = vec![];
+                        for a in m.iter() {
+                            pairs.push(json!([string_to_cps(&a.value().ok()?), a.specified()]));
+                        }
+                        kids.push(json!({"len": m.length(), "pairs": pairs}));
+                    }
+                    Some(kids)
+                });
+                if let Ok(Some(kids)) = got {
+                    ev["parsed"] = json!(true);
+                    ev["kids"] = json!(kids);
+                }
+                writeln!(out, "{}", ev).unwrap();
+                n += 1;
+            }
+            return;
+        }
         for expanded in [false, true] {
             let mut ev = json!({"event": "attrq", "d": c["d"], "dk": c["dk"], "w": c["w"], "expanded": expanded,
                                 "parsed": false, "len": 0, "pairs": []});
